@@ -22,7 +22,8 @@ Record sstate := mkS {
   s_wl : list Q; s_psd : list Q; s_pow : list Q }.   (* _wavelengths _power_spectral_density _power *)
 
 Inductive sop :=
-| SSetMin (v : Q) | SSetMax (v : Q) | SSetBins (n : Z) | SSetMean (v : Q) | SSetStd (v : Q).
+| SSetMin (v : Q) | SSetMax (v : Q) | SSetBins (n : Z) | SSetMean (v : Q) | SSetStd (v : Q)
+| SBad (gauss_only : bool).           (* a non-numeric value assigned to min/max/bins (false) or to mean/stddev (true) *)
 
 Record sargs := mkSA { g_min : Q; g_max : Q; g_bins : Z; g_mean : Q; g_std : Q }.
 
@@ -113,6 +114,7 @@ Definition sstep (s : sstate) (o : sop) : sstate * res :=
       | SConst => (s, RAttr)
       | SGauss => if Qle_bool v 0 then (s, RValue) else (rebin_if_initialised (set_std s v), ROk)
       end
+  | SBad g => match g, sk s with true, SConst => (s, RAttr) | _, _ => (s, RType) end
   end.
 
 Fixpoint srun (s : sstate) (ops : list sop) : sstate * list res :=
